@@ -907,6 +907,8 @@ SolverOption *SolverOptionManager::FindOption(
       return Option_Type::BOOL;
     }
   };
+  if (!*name)       // e.g., "=5" in an option string
+    return 0;
   DummyOption option(name);
   // find by name
   OptionSet::const_iterator i = options_.find(&option);
